@@ -142,6 +142,25 @@ func scratchEscapes(p *Program, v ssa.Value, depth int, seen map[ssa.Value]bool)
 	}
 	seen[v] = true
 	for _, r := range *v.Referrers() {
+		// its whole length bounds a loop (`for i := range vdc.arrayPos`): the extent of an earlier, longer use
+		// is taken for this one's
+		if x, ok := r.(*ssa.Call); ok {
+			if bi, ok := x.Call.Value.(*ssa.Builtin); ok && bi.Name() == "len" && x.Referrers() != nil {
+				for _, r2 := range *x.Referrers() {
+					bo, ok := r2.(*ssa.BinOp)
+					if !ok || bo.Op != token.LSS || bo.Y != ssa.Value(x) {
+						continue
+					}
+					idx := bo.X
+					if add, ok := idx.(*ssa.BinOp); ok && add.Op == token.ADD {
+						idx = add.X
+					}
+					if _, isPhi := idx.(*ssa.Phi); isPhi {
+						return x
+					}
+				}
+			}
+		}
 		switch x := r.(type) {
 		case *ssa.Return:
 			return x
